@@ -213,6 +213,10 @@ class PriorCtx(AsyncContext):
             raise PErr("pause")
 
 
+class PriorNonAsync(NonAsyncContext):  # used by subclassing, as its docstring says (the compiled base has no __dict__)
+    pass
+
+
 def run_prior(kind, handled):
     """The earlier top-level computation of the session (DiagGlue.tla: PriorRun / PriorFlush / PriorDeliver):
     prior_outer -> prior_inner, prior_inner awaits a batch item; ends as `kind` says.  Its outcome is not compared."""
@@ -227,7 +231,7 @@ def run_prior(kind, handled):
             with PriorCtx(bad_pause=1):
                 yield PriorItem(b)
         elif kind == "nonasync":
-            with NonAsyncContext():
+            with PriorNonAsync():
                 yield PriorItem(b)
         else:
             yield PriorItem(b)
